@@ -1914,7 +1914,7 @@ public:
       SVectorBase<R>& row = rowVector_w(i);
       SVectorBase<R>& col = colVector_w(j);
 
-      if(mpq_get_d(*val) != R(0))
+      if(mpq_sgn(*val) != 0)
       {
          if(row.pos(j) >= 0 && col.pos(i) >= 0)
          {
